@@ -63,6 +63,18 @@ func (u *Universe) StatePath() string {
 // Start runs `kamal-proxy run` (optionally under a wrapper such as strace) and waits until the
 // command socket answers. Wall-clock waits here are watchdogs only: a timeout is "inconclusive".
 func (u *Universe) Start(wrapper []string, extraEnv ...string) error {
+	var err error
+	for attempt := 0; attempt < 4; attempt++ {
+		if err = u.startOnce(wrapper, extraEnv...); err == nil {
+			return nil
+		}
+		// most likely a "free" port was taken by another process in the meantime
+		u.HTTP, u.HTTPS = freePort(), freePort()
+	}
+	return err
+}
+
+func (u *Universe) startOnce(wrapper []string, extraEnv ...string) error {
 	args := append(append([]string{}, wrapper...), u.Bin, "run", "--http-port", fmt.Sprint(u.HTTP), "--https-port", fmt.Sprint(u.HTTPS))
 	u.proc = exec.Command(args[0], args[1:]...)
 	u.proc.Env = u.env(extraEnv...)
